@@ -8,7 +8,7 @@ from harness import core, py2v, py2v_ext
 ID = 'C27'
 TITLE = 'Row id allocation never collides or creates ghost rows'
 PROPS = ['Props/C27']
-VARIANT = 'current'       # 'fixed' once notes/proposed_fixes/C27-rowid-validation.diff is applied to the source
+VARIANT = os.environ.get('VERIF_C27_VARIANT', 'current')   # 'fixed' once notes/proposed_fixes/C27-rowid-validation.diff is applied
 RULE = ('cases = (table row-id set, AddRecord | BulkAddRecord | ReplaceTableData, list of requested ids); ids drawn '
         'from None, negative, explicit fresh, explicit existing, repeated, 0, 1000000, > 1000000; row sets are random '
         'subsets of 1..9 (plus removed "ghost" rows above the maximum, and a few with row 1000000); thorough adds '
@@ -157,7 +157,11 @@ class Doc(object):
   def run(self, case):
     """-> dict(before, outcome ('ok'|exception name), ret (filled ids or None), after, changed_elsewhere, snap_same)"""
     env, e = self.env, self.e
-    env.set_rows(e, 'T', case['rows'], case.get('ghosts', ()))
+    try:
+      env.set_rows(e, 'T', case['rows'], case.get('ghosts', ()))
+    except Exception as ex:      # pylint: disable=broad-except
+      return {'outcome': 'setup', 'msg': 'cannot create rows %r with explicit fresh ids: %s: %s'
+              % (case['rows'], type(ex).__name__, str(ex)[:100]), 'ret': None, 'after': [], 'unchanged': True}
     before = env.snapshot(e)
     req = list(case['req'])
     act = case['action']
@@ -257,6 +261,7 @@ def correspond(ctx):
   ctx._c27_results = []
   coq = []
   idx = []
+  nbad_setup = 0
   for n, case in enumerate(cases):
     res = doc.run(case)
     ctx._c27_results.append(res)
@@ -279,7 +284,9 @@ def correspond(ctx):
       o = 'Accepted %s %s' % (core.zlist(ret), core.zlist(res['after']))
     else:
       if res['outcome'] not in EXC:
-        ctx.broken('correspondence:unexpected exception', 'case %r -> %r' % (case, res))
+        if nbad_setup < 3:
+          ctx.broken('correspondence:unexpected exception', 'case %r -> %r' % (case, res))
+        nbad_setup += 1
         continue
       o = 'Rejected %s' % EXC[res['outcome']]
     coq.append('(%s, %s, %s, (%s))' % (core.boollit(replace), core.zlist(case['rows']),
@@ -311,6 +318,8 @@ def oracle(case, res):
     bad.append(('existing-id-accepted', 'a request for a row id that already exists'))
   if any(z > MAXID for z in ex):
     bad.append(('over-limit-accepted', 'a request for a row id over 1,000,000'))
+  if res['outcome'] == 'setup':
+    return ('valid-request-rejected', res['msg'])
   if res['outcome'] != 'ok':
     if not res['unchanged']:
       return ('rejected-but-changed', '%s raised but the document changed' % res['outcome'])
@@ -367,7 +376,9 @@ def search(ctx):
     key = (len(case['req']), len(case['rows']))
     if kind not in seen or key < seen[kind][0]:
       seen[kind] = (key, what, {'rows': case['rows'], 'ghosts': case.get('ghosts', []), 'action': case['action'],
-                                'req': case['req']})
+                                'req': case['req'],
+                                'observed': {'ret': res.get('stored_ids') if case['action'] == 'ReplaceTableData'
+                                             else res.get('ret'), 'after': res.get('after')}})
   for kind, (_k, what, w) in sorted(seen.items()):
     ctx.violation(kind, what, w)
 
@@ -379,22 +390,30 @@ def replay(ctx, w):
   return None if v is None else '%s: %s' % v
 
 
+def honoured(req, ret):
+  return len(ret) == len(req) and all(o == r for r, o in zip(req, ret) if r is not None and r >= 0)
+
+
 # narrow matchers: the violation must be of the recorded kind AND its replay must show that failure mode
 def _m(kind, pred):
   def fn(violation, entry):
     if violation.get('kind') != kind or entry.get('violation_kind') != kind:
       return False
     req = violation['replay']['req']
-    return pred(explicit_ids(req), req)
+    ret = (violation['replay'].get('observed') or {}).get('ret') or []
+    return pred(explicit_ids(req), req, ret)
   return fn
 
 
 MATCHERS = {
-  'c27_explicit_id_repeats': _m('explicit-id-repeated-accepted', lambda ex, req: len(set(ex)) != len(ex)),
-  'c27_explicit_zero': _m('explicit-zero-accepted', lambda ex, req: 0 in ex),
+  # the request repeats an explicit id AND the engine returned the requested ids as they were
+  'c27_explicit_id_repeats': _m('explicit-id-repeated-accepted',
+                                lambda ex, req, ret: len(set(ex)) != len(ex) and honoured(req, ret)),
+  # the request holds an explicit 0 AND 0 was returned for it
+  'c27_explicit_zero': _m('explicit-zero-accepted', lambda ex, req, ret: 0 in ex and honoured(req, ret)),
   'c27_auto_collides_with_explicit': _m('auto-id-collides-with-explicit',
-                                        lambda ex, req: len(set(ex)) == len(ex) and 0 not in ex and
-                                        any(r is None or r < 0 for r in req)),
+                                        lambda ex, req, ret: len(set(ex)) == len(ex) and 0 not in ex and
+                                        any(r is None or r < 0 for r in req) and honoured(req, ret)),
 }
 
 TECHNIQUE = ('Coq proof over the id-filling loop translated from source on every run (py2v_ext) + hand model of the '
